@@ -352,6 +352,10 @@ theorem View.resolves (v : View ν α) : v.WF → Resolves v := by
     · intro idx hin
       simpa [matrixOf_lens s r c hw.2.1] using hin
     · intro a b _ _ h; exact h
+  | tmap s ih =>
+    intro hw
+    simp only [View.WF] at hw
+    exact resolves_unary (ih hw) id (fun _ => rfl) rfl (fun _ h => h) (fun _ _ _ _ h => h)
   | range s rs ih =>
     intro hw
     simp only [View.WF] at hw
